@@ -355,6 +355,34 @@ let run_n () =
   let cfg = { full_merge = fm; discard_fields = default_discard; detect_dup = dd } in
   print_endline ("norm=" ^ show_res show_json (normalize sv cfg fuel s))
 
+(* stream J: JSON schema -> graph, entries, samples *)
+let cjson j = String.concat "," (String.split_on_char ' ' (show_json j))
+let show_jpay st n =
+  match List.nth_opt st.jb_pay n with
+  | Some (JPSet v) -> "=" ^ cjson v | Some (JPKey k) -> "K" ^ tok_of_str k
+  | Some JPArr -> "A" | Some JPAppend -> "+" | Some JPObj -> "{" | Some JPInput -> "I" | Some JPOutput -> "O"
+  | _ -> "-"
+let run_j () =
+  let v = read_variant () in
+  let sv = (next () <> 0) in
+  let fuel = next_nat () in
+  let mode = next () in
+  let s = read_json () in
+  let r = if mode = 0 then parse_json_schema sv fuel s else parse_nf fuel s in
+  match r with
+  | Ok (st, root) ->
+    let g = st.jb_graph in
+    let b = Buffer.create 4096 in
+    Buffer.add_string b ("graph=" ^ dump_canon g (show_jpay st) fuel root);
+    (match generate_paths v fuel g root aempty aempty with
+     | Ok (_, (es, stt)) ->
+       Buffer.add_string b ("|entries=" ^ canon_entries g fuel root es ^ "|status=" ^ show_res (fun () -> "") stt);
+       Buffer.add_string b ("|samples=" ^ String.concat ";" (List.map (fun e ->
+         show_res cjson (jsample fuel st root e.epath)) es))
+     | r -> Buffer.add_string b ("|fail=" ^ show_res (fun _ -> "") r));
+    print_endline (Buffer.contents b)
+  | r -> print_endline ("parse=" ^ show_res (fun _ -> "") r)
+
 (* stream O: SampleCache histories *)
 let ecls_of_code = function
   | 0 -> EResolveReference | 1 -> EInternal | 2 -> ENormalization | 3 -> EJsonPointer
@@ -430,6 +458,7 @@ let () =
            | "RS" -> run_rs ()
            | "GM" -> run_gm ()
            | "N" -> run_n ()
+           | "J" -> run_j ()
            | "F" -> run_f ()
            | "O" -> run_o ()
            | t -> print_endline ("error=unknown-stream:" ^ t)
